@@ -486,3 +486,71 @@ pub fn atom_of_domain_goal(dg: &DomainGoal<ChalkIr>, env: &[Bind]) -> Option<Sex
         _ => None,
     }
 }
+
+/// C21: impl clauses, `wf(S(x̄)) :- struct where-clauses, wf(x_i)..` (hereditary), `wf(scalar)`, and the implications the
+/// property promises for an ACCEPTED program:
+///   trait Tr<P̄> where W :   wf(Self), wf(P_i).., Tr(Self, P̄)  ⇒  W
+///   struct S<x̄> { f }   :   wf(S(x̄))                          ⇒  wf(f)
+/// Returns (program, implications).
+pub fn program_to_horn_wf(p: &Program) -> Option<(Sexp, Sexp)> {
+    let mut clauses = vec![];
+    let mut imps = vec![];
+    let var = |i: usize| tagged("var", vec![nat(i)]);
+    let wf = |t: Sexp| Sexp::List(vec![atom("atom"), atom("wf"), t]);
+    for (_, d) in &p.impl_data {
+        if d.polarity != Polarity::Positive || d.impl_type != ImplType::Local || !d.associated_ty_value_ids.is_empty() {
+            return None;
+        }
+        if d.binders.binders.iter(I).any(|k| !matches!(k, VariableKind::Ty(TyVariableKind::General))) {
+            return None;
+        }
+        let b = d.binders.skip_binders();
+        let env = [Bind::Vars];
+        let head = atom_of_trait_ref(&b.trait_ref, &env)?;
+        let body: Option<Vec<Sexp>> = b.where_clauses.iter().map(|w| atom_of_wc(w, &env)).collect();
+        clauses.push(tagged("clause", vec![head, list(body?)]));
+    }
+    for (id, t) in &p.trait_data {
+        let f = &t.flags;
+        if f.auto || f.marker || f.fundamental || f.coinductive || t.well_known.is_some() || !t.associated_ty_ids.is_empty() {
+            return None;
+        }
+        if t.binders.binders.iter(I).any(|k| !matches!(k, VariableKind::Ty(TyVariableKind::General))) {
+            return None;
+        }
+        let n = t.binders.len(I);
+        let mut head = vec![atom("atom"), atom(&format!("tr{}", id.0.index))];
+        head.extend((0..n).map(var));
+        let mut prem: Vec<Sexp> = (0..n).map(|i| wf(var(i))).collect();
+        prem.push(Sexp::List(head));
+        let env = [Bind::Vars];
+        for w in &t.binders.skip_binders().where_clauses {
+            imps.push(list(vec![nat(n), list(prem.clone()), atom_of_wc(w, &env)?]));
+        }
+    }
+    for (id, a) in &p.adt_data {
+        if a.binders.binders.iter(I).any(|k| !matches!(k, VariableKind::Ty(TyVariableKind::General))) {
+            return None;
+        }
+        let n = a.binders.len(I);
+        let env = [Bind::Vars];
+        let me = app(&format!("adt{}", id.0.index), (0..n).map(var).collect());
+        // hereditary well-formedness: the struct's where-clauses hold and every argument is well-formed
+        let mut body: Vec<Sexp> = a.binders.skip_binders().where_clauses.iter().map(|w| atom_of_wc(w, &env)).collect::<Option<_>>()?;
+        body.extend((0..n).map(|i| wf(var(i))));
+        clauses.push(tagged("clause", vec![wf(me.clone()), list(body)]));
+        for v in &a.binders.skip_binders().variants {
+            for f in &v.fields {
+                imps.push(list(vec![nat(n), list(vec![wf(me.clone())]), wf(tm_of_ty(f, &env)?)]));
+            }
+        }
+    }
+    for c in [scalar_code(Scalar::Uint(UintTy::U32)), scalar_code(Scalar::Bool), scalar_code(Scalar::Int(IntTy::I32))] {
+        clauses.push(tagged("clause", vec![wf(app(&format!("scalar{}", c), vec![])), list(vec![])]));
+    }
+    clauses.push(tagged("clause", vec![wf(app("!c0", vec![])), list(vec![])]));
+    if !p.custom_clauses.is_empty() || !p.opaque_ty_data.is_empty() || !p.associated_ty_data.is_empty() {
+        return None;
+    }
+    Some((tagged("program", vec![list(clauses), list(vec![])]), list(imps)))
+}
